@@ -87,6 +87,8 @@ func HarnessC11_Quorum() {
 			return 0, vfErrReplica
 		case 2:
 			return 0, vfErrTerminal
+		case 3:
+			return 0, vfErrAborted
 		}
 		return idx + 1, nil
 	}
@@ -107,6 +109,7 @@ func HarnessC11_Quorum() {
 	}()
 
 	okCnt, failCnt := 0, 0
+	errKind := -1
 	zoneFailed := map[string]bool{}
 	terminalSeen := false
 	cancelled := false
@@ -221,10 +224,19 @@ func HarnessC11_Quorum() {
 		case a < len(pending):
 			c := pending[a]
 			out := vfChoice("outcome", 3)
+			if out == 1 && vfParam("abort", 1) == 1 {
+				// the kind of error must not matter: ordinary, or wrapping context.Canceled
+				if errKind < 0 {
+					errKind = vfChoice("errkind", 2)
+				}
+				if errKind == 1 {
+					out = 3
+				}
+			}
 			switch out {
 			case 0:
 				okCnt++
-			case 1:
+			case 1, 3:
 				failCnt++
 				zoneFailed[insts[c.idx].Zone] = true
 			case 2:
